@@ -16,6 +16,7 @@ From Coq.Strings Require Import Byte.
 From SP Require Import Bytes Params Msgpack Crypto Errors Packets Chunker Rand Sign Verify SignProofs SignAuthProofs SignAuthLocated.
 From SP Require Import Nonce Packets Signcrypt GoLang GoLang2 GoAst GoAstProofs GoAstProofs2 GoAstProofs3 GoAstProofs4b.
 From SP Require Import GoAstRecv.
+From SP Require GoAstOpen GoAstProofs5a GoAstProofs7c.
 From Coq Require String.
 Import String.StringSyntax.
 Import ListNotations.
@@ -113,6 +114,177 @@ Theorem C06_source_verify_readHeader (c : crypto) (vd : validator) (typ : Z) (in
 Proof. exact (go_verify_readHeader c vd typ input s). Qed.
 Local Close Scope string_scope.
 
+(* ---- source ties: the entry-point glue of the ATTACHED-signature receiver (/repo/verify.go, verify_stream.go,
+        common.go), lemmas of proofs/GoAstProofs7c.v ---- *)
+(* The terms f_saltpack_assertEndOfStream, readSignatureBlock, newVerifyStream, NewVerifyStream and Verify are
+   generated on every run from the Go syntax trees of /repo (gen/GoAstOpen.v) and run by the evaluator of
+   model/GoLang2.v (run_func2: outcome AND final environment) on ENCODED arguments.  A msgpack stream is
+   [g_mps_raw input s]: the input BYTES not yet consumed and Go's packet counter s; a reader that cannot fail
+   (a *bytes.Buffer, bytes.NewReader) is the bytes it holds (rdr_bytes r = Some input says which bytes r holds, it
+   does not restrict them); a SigningPublicKey object is [g_spk pk]; the version validator VV and the keyring KR are
+   opaque values whose meaning is in the externs (vd, kr).  msgpackStream.Read(&x) = ext_read ty: the model's parser
+   on the remaining input, then go-codec's decoding at the STATIC type ty of x (the translator records it in the
+   declaration of x, so the extern is taken at the type the version selects: sig_target v), returning (seqno, err) and
+   then the advanced stream and the decoded value.  Calls of saltpack functions have the MODEL's meaning, and the
+   compose_ theorems show that these meanings ARE the outcomes of the translated callees.  An extern has NO value
+   where the model says Unmodelled or where the callee panics: the evaluator is then stuck at that call
+   (OStuck "call"), and the statements say exactly when.  nvs_outcome / verify_outcome (GoAstProofs7c.v) are what
+   NewVerifyStream / Verify return, as Go values; verify_class reads such an outcome back as a result of the model.
+   LIMITS: a reader failing in mid-packet is not modelled; "reading the returned chunk reader to the end yields the
+   model's loop" is the meaning of an extern inside Verify, its pieces being C13_source_chunkReader_Read and
+   C06_source_verify_getNextChunk / C06_source_verify_loop_is_step. *)
+Section C06_source_entry.
+Import GoAstOpen GoAstProofs5a GoAstProofs7c.
+Local Open Scope string_scope.
+
+(* assertEndOfStream(stream) returns the Go value of the model's assert_end_of_stream of the remaining input
+   (ErrTrailingGarbage / io.EOF / decode error; stuck where the model says Unmodelled), and the stream is advanced past
+   the object read, or left as it was after a failed read.  No hypothesis (any input, any start counter). *)
+Theorem C06_source_assertEndOfStream (input : bytes) (s : Z) :
+  let r := run_func2 (ext_read TAny) f_saltpack_assertEndOfStream [g_mps_raw input s] in
+  match GoAstProofs4b.g_err (assert_end_of_stream input) with
+  | Some ev => fst r = ORet [ev]
+  | None => fst r = OStuck "call"
+  end /\
+  match mp_read input with
+  | POk _ rest => lookup "stream" (snd r) = Some (g_mps_raw rest ((s + 1) mod two64))
+  | PShort | PBad => lookup "stream" (snd r) = Some (g_mps_raw input s)
+  | PUnmod => True
+  end.
+Proof. exact (go_assertEndOfStream input s). Qed.
+
+(* the struct decoders of ext_read are the model's view: view_sig_block of a packet is go-codec's decoding into
+   signatureBlockV1 [sig, chunk] (isFinal computed from the chunk being empty, as the code does) or signatureBlockV2
+   [final, sig, chunk], followed by what the Go code computes from the fields.  No hypothesis. *)
+Theorem C06_source_view_sig_block_struct (v : version) (m : mval) :
+  view_sig_block v m =
+  if (vmaj v =? 1)%Z
+  then dbind (view_sbV1 m) (fun x => DOk (fst x, snd x, match snd x with [] => true | _ => false end))
+  else dbind (view_sbV2 m) (fun x => DOk (snd (fst x), snd x, fst (fst x))).
+Proof. exact (view_sig_block_struct v m). Qed.
+
+(* readSignatureBlock(version, mps): for major version 1 or 2 (ver12) the five results are the model's view_sig_block
+   of the next packet (signature, chunk, isFinal) with the packet's seqno and nil, the stream advanced (blk_spec,
+   case RdOk); or (nil, nil, false, 0, err) with the stream unchanged (RdErr); stuck where the model says Unmodelled
+   (RdNone); for any other major version the function panics.  No hypothesis (any start counter). *)
+Theorem C06_source_readSignatureBlock (v : version) (input : bytes) (s : Z) :
+  let r := run_func2 (ext_read (sig_target v)) f_saltpack_readSignatureBlock [g_version v; g_mps_raw input s] in
+  if ver12 v
+  then blk_spec (fun x : bytes * bytes * bool => [VBytes (fst (fst x)); VBytes (snd (fst x)); VBool (snd x)])
+                input s (mps_read (view_sig_block v) (g_mps_raw input s)) r
+  else r = (OPanic, []).
+Proof. exact (go_readSignatureBlock v input s). Qed.
+
+(* newVerifyStream(vv, r, msgType), r any error-free reader over the input bytes, returns (the verifyStream object
+   g_vs_new: stream advanced past the header packet, header, header hash, no key yet; nil) or (nil, the error of the
+   model's verify_read_header); stuck where the model says Unmodelled.  Hypotheses: rdr_bytes r = Some input (which
+   bytes r holds); msgType is MessageTypeAttachedSignature or MessageTypeDetachedSignature (sig_type_ok: the two
+   constants its callers pass; otherwise validate returns ErrInvalidParameter, which the model does not have). *)
+Theorem C06_source_newVerifyStream (c : crypto) (vd : validator) (VV r : gval) (input : bytes) (typ : Z) :
+  rdr_bytes r = Some input -> sig_type_ok typ = true ->
+  fst (run_func2 (ext_nvs c vd) f_saltpack_newVerifyStream [VV; r; VInt typ])
+  = match verify_read_header c vd typ input with
+    | Ok (h, hh, rest) => ORet [g_vs_new h hh (g_mps_raw rest 1); VNil]
+    | Err e => match g_herr e with Some ev => ORet [VNil; ev] | None => OStuck "call" end
+    end.
+Proof. exact (go_newVerifyStream c vd VV r input typ). Qed.
+
+(* NewVerifyStream(vv, r, keyring) returns nvs_outcome: the header error, ErrNoSenderKey{sender}, or the signer's key,
+   the chunk reader over the verifyStream object with publicKey set, nil.  Hypothesis: rdr_bytes r = Some input. *)
+Theorem C06_source_NewVerifyStream (c : crypto) (vd : validator) (kr : sigring) (VV r KR : gval) (input : bytes) :
+  rdr_bytes r = Some input ->
+  fst (run_func2 (ext_NVS c vd kr) f_saltpack_NewVerifyStream [VV; r; KR])
+  = nvs_outcome c vd kr input.
+Proof. exact (go_NewVerifyStream c vd kr VV r KR input). Qed.
+
+(* NewVerifyStream against the model's verify_stream: the same error class; on success the signer and the chunk reader
+   over the verifyStream object holding exactly the state the model's verify_loop starts from (header version, key,
+   header hash, packet counter, remaining input), whose run is the model's output.  No hypothesis. *)
+Theorem C06_source_nvs_outcome_model (c : crypto) (vd : validator) (kr : sigring) (input : bytes) :
+  match verify_stream c vd kr input with
+  | Ok (pk, out) =>
+    exists h hh rest,
+      verify_read_header c vd mt_attached input = Ok (h, hh, rest) /\
+      nvs_outcome c vd kr input = ORet [g_spk pk; g_cr_new (g_vs_key h hh pk (g_mps_raw rest 1)); VNil] /\
+      out = verify_loop c (S (List.length rest)) (h_version h) pk hh 0 rest []
+  | Err e =>
+    match g_herr e with
+    | Some (VErr n _) => exists a, nvs_outcome c vd kr input = ORet [VNil; VNil; VErr n a]
+    | _ => nvs_outcome c vd kr input = OStuck "call"
+    end
+  end.
+Proof. exact (nvs_outcome_model c vd kr input). Qed.
+
+(* Verify(vv, signedMsg, keyring), the all-at-once entry point (NewVerifyStream inside it = the model's verify_stream,
+   io.ReadAll = all chunks and the ending error unless io.EOF), returns verify_outcome: the signer and the
+   concatenated chunks when the stream ends cleanly, (nil, nil, err) when it ends with an error, the constructor's
+   error otherwise.  No hypothesis. *)
+Theorem C06_source_Verify (c : crypto) (vd : validator) (kr : sigring) (VV KR : gval) (input : bytes) :
+  fst (run_func2 (ext_verify c vd kr) f_saltpack_Verify [VV; VBytes input; KR])
+  = verify_outcome c vd kr input.
+Proof. exact (go_Verify c vd kr VV KR input). Qed.
+
+(* Verify against the model: the class of what it returns is the model's verify_all (the function C06_all_at_once
+   and C06_authentic are about).  Hypothesis: the outcome is not the stuck evaluator (the model says Unmodelled or a
+   panic). *)
+Theorem C06_source_verify_outcome_model (c : crypto) (vd : validator) (kr : sigring) (input : bytes) :
+  verify_outcome c vd kr input <> OStuck "call" ->
+  verify_class (verify_outcome c vd kr input) = verify_all c vd kr input.
+Proof. exact (verify_outcome_model c vd kr input). Qed.
+
+(* COMPOSITION.  The meaning GoAstProofs4b.ext_chunk gives to the call readSignatureBlock inside getNextChunk
+   (C06_source_verify_getNextChunk) IS the outcome of the translated function: its five results, and the stream
+   written back; no value exactly where the callee is stuck ("call") or panics (another major version).
+   No hypothesis. *)
+Theorem C06_source_compose_readSignatureBlock (c : crypto) (ty : read_target) (v : version) (input : bytes) (s : Z) :
+  let r := run_func2 (ext_read (sig_target v)) f_saltpack_readSignatureBlock [g_version v; g_mps_raw input s] in
+  match ext_chunk c ty "readSignatureBlock" [g_version v; g_mps_raw input s] with
+  | Some rs => fst r = ORet (firstn 5 rs) /\ lookup "mps" (snd r) = nth_error rs 6
+  | None => if ver12 v then fst r = OStuck "call" else r = (OPanic, [])
+  end.
+Proof. exact (compose_readSignatureBlock c ty v input s). Qed.
+
+(* the same for assertEndOfStream (called by the getNextChunk of all three receivers).  No hypothesis. *)
+Theorem C06_source_compose_assertEndOfStream (c : crypto) (ty : read_target) (input : bytes) (s : Z) :
+  fst (run_func2 (ext_read TAny) f_saltpack_assertEndOfStream [g_mps_raw input s])
+  = match ext_chunk c ty "assertEndOfStream" [g_mps_raw input s] with Some rs => ORet rs | None => OStuck "call" end.
+Proof. exact (compose_assertEndOfStream c ty input s). Qed.
+
+(* the meaning ext_vdet (VerifyDetachedReader, NewVerifyStream) gives to the call newVerifyStream is the outcome of the
+   translated newVerifyStream.  Hypothesis: msgType is one of the two signature types. *)
+Theorem C06_source_compose_newVerifyStream (c : crypto) (vd : validator) (kr : sigring) (VV : gval) (input : bytes) (typ : Z) :
+  sig_type_ok typ = true ->
+  fst (run_func2 (ext_nvs c vd) f_saltpack_newVerifyStream [VV; VBytes input; VInt typ])
+  = match ext_vdet c vd kr "newVerifyStream" [VV; VBytes input; VInt typ] with Some rs => ORet rs | None => OStuck "call" end.
+Proof. exact (compose_newVerifyStream c vd kr VV input typ). Qed.
+
+(* the meaning ext_nvs (newVerifyStream) gives to the call verifyStream.readHeader, on the object
+   C06_source_verify_readHeader is stated on, gives that theorem's results: nil and the same receiver object, or an
+   error of the same class.  Hypothesis: the message type is attached or detached. *)
+Theorem C06_source_compose_verify_readHeader (c : crypto) (vd : validator) (typ : Z) (input : bytes) (s : Z) :
+  typ = mt_attached \/ typ = mt_detached ->
+  let r := run_func2 (ext_vhdr c vd) GoAstRecv.f_saltpack_verifyStream_readHeader
+                     [VStruct [("mps", g_mps_raw input s)]; VNil; VInt typ] in
+  match ext_nvs c vd "verifyStream.readHeader" [VStruct [("mps", g_mps_raw input s)]; VNil; VInt typ] with
+  | Some [VNil; obj] => fst r = ORet [VNil] /\ lookup "v" (snd r) = Some obj
+  | Some [ev'] => exists ev, fst r = ORet [ev] /\ hdr_err_class ev = hdr_err_class ev'
+  | _ => fst r = OStuck "call"
+  end.
+Proof. exact (compose_verify_readHeader c vd typ input s). Qed.
+End C06_source_entry.
+
+Print Assumptions C06_source_assertEndOfStream.
+Print Assumptions C06_source_view_sig_block_struct.
+Print Assumptions C06_source_readSignatureBlock.
+Print Assumptions C06_source_newVerifyStream.
+Print Assumptions C06_source_NewVerifyStream.
+Print Assumptions C06_source_nvs_outcome_model.
+Print Assumptions C06_source_Verify.
+Print Assumptions C06_source_verify_outcome_model.
+Print Assumptions C06_source_compose_readSignatureBlock.
+Print Assumptions C06_source_compose_assertEndOfStream.
+Print Assumptions C06_source_compose_newVerifyStream.
+Print Assumptions C06_source_compose_verify_readHeader.
 Print Assumptions C06_source_verify_getNextChunk.
 Print Assumptions C06_source_verify_loop_is_step.
 Print Assumptions C06_source_verify_readHeader.
